@@ -86,7 +86,7 @@ def gen_cases(rng, ctx):
         # scripted origin on loopback
         front = i >= n
         version = rng.choice([1, 2, 2, 3]) if not front else rng.choice([2, 3, 3])
-        method = rng.choice(["GET", "GET", "POST", "PUT", "HEAD", "DELETE"])
+        method = rng.choice(["GET", "GET", "POST", "PUT", "HEAD", "DELETE", "OPTIONS"])
         host = rng.choice(["origin.test", "origin.test:8080", "10.0.0.1"]) if not front else "@A"
         path = rng.choice(["/", "/p", "/a/b?x=1&y=%20"])
         uri = "http://%s%s" % (host, path)
@@ -112,6 +112,11 @@ def gen_cases(rng, ctx):
                 req_hs.append(("content-length", str(len(body))))
             elif r == 2 and version == 1:
                 body = b""          # HTTP/1.1 without Content-Length: no body is forwarded
+            elif r == 3 and version == 1 and not front:
+                # chunked by the client: passed on as the client framed it (the coding name in any case, possibly after another coding)
+                body = gen_chunked(rng, body)
+                declared = -1
+                req_hs.append(("transfer-encoding", rng.choice(["chunked", "Chunked", "CHUNKED", "gzip, chunked", "gzip,Chunked "])))
         rng.shuffle(req_hs)
         body_chunks = []
         pos = 0
@@ -144,10 +149,10 @@ def gen_cases(rng, ctx):
             resp_hs.append(("Content-Length", str(len(data))))
             wire_body = data
         elif mode == "chunked":
-            if version >= 2 and not bodiless and rng.chance(1, 5):
+            if not bodiless and rng.chance(1, 5):
                 # an origin that also states a length (RFC 9112 6.3: Transfer-Encoding overrides it and the proxy removes it)
                 resp_hs.append(("Content-Length", str(len(data) + 7)))
-            resp_hs.append(("Transfer-Encoding", "chunked"))
+            resp_hs.append(("Transfer-Encoding", rng.choice(["chunked", "chunked", "Chunked", "CHUNKED", " chunked"]).strip() if front else rng.choice(["chunked", "chunked", "Chunked", "CHUNKED"])))
             wire_body = gen_chunked(rng, data)
         else:
             wire_body = data
@@ -189,6 +194,8 @@ def gen_cases(rng, ctx):
                 drop |= {t.strip().lower() for t in b.split(",") if t.strip().lower() != "close"}
         if dechunk or (version >= 2 and any(a.lower() == "transfer-encoding" for a, b in resp_hs)):
             drop |= {"content-length", "transfer-encoding"}
+        elif any(a.lower() == "transfer-encoding" for a, b in resp_hs):
+            drop |= {"content-length"}          # Transfer-Encoding overrides it for an HTTP/1.1 client too
         exp_hs = sorted((a.lower(), b) for a, b in resp_hs if a.lower() not in drop)
         # model line: the body part of the stream
         model = None
